@@ -1,4 +1,7 @@
 """C18 — path and string utilities compute the documented normal forms and inverses."""
+import os
+
+from translators import tr_c18
 
 PID = "C18"
 CLAIM = True
@@ -16,7 +19,7 @@ MANIFEST_NOTE = ("Trusted: Lean kernel (+propext/Classical.choice/Quot.sound), t
                  "snprintf (formatString is modelled as 'snprintf into 1000 bytes, else heap' on the ideal text; only the "
                  "%d/%s/%% subset with flags - 0 and a width is exercised).  Strings containing NUL are outside the model.")
 TECHNIQUE = "Lean 4 proof (char-level model refines component-level spec) + exhaustive differential correspondence with independent resolver oracle"
-TRANSLATORS = []
+TRANSLATORS = [tr_c18.translate]
 HARNESS = dict(
     sources=["cxx_c18.cc"],
     repo_sources=["dune/common/path.cc", "dune/common/exceptions.cc", "dune/common/stdstreams.cc"],
@@ -41,10 +44,24 @@ def _count(L):
     return (4 ** (L + 1) - 1) // 3
 
 
+def _source_facts():
+    """stack buffer size of formatString in the tree under test and the number of translator fallbacks"""
+    repo = os.environ.get("VERIF_REPO", "/repo")
+    a = tr_c18.analyse(repo)
+    return a["bufferSize"], sum(1 for v in a["status"].values() if v is not None), len(a["status"])
+
+
+def _fcases(N, extra):
+    top = min(2 * N + 100, 4200)
+    sweep = top + 1 + sum(1 for c in (N, 2 * N) for t in range(c - 8, c + 9) if t > top)
+    return sweep + extra
+
+
 def batches(tier, seed):
     quick = tier == "quick"
     LU = 9 if quick else 11
     LB = 4 if quick else 5
+    N, nfall, nitems = _source_facts()
     res = []
     # exhaustive unary enumeration, in chunks so memory stays flat
     nu = _count(LU)
@@ -70,8 +87,15 @@ def batches(tier, seed):
     nr = 20000 if quick else 300000
     res.append(dict(args=["--mode", "ur", "--cases", str(nr), "--seed", str(seed * 1000 + 1)], tag="ur", timeout=1500))
     res.append(dict(args=["--mode", "br", "--cases", str(nr), "--seed", str(seed * 1000 + 2)], tag="br", timeout=1500))
-    res.append(dict(args=["--mode", "bl", "--cases", str(600 if quick else 6000), "--seed", str(seed * 1000 + 3)], tag="bl", timeout=1500))
-    res.append(dict(args=["--mode", "f", "--cases", str(2101 + (400 if quick else 6000)), "--seed", str(seed * 1000 + 4)], tag="f", timeout=1500))
+    res.append(dict(args=["--mode", "ul", "--cases", str(150 if quick else 3000), "--seed", str(seed * 1000 + 5)], tag="ul", timeout=1500))
+    res.append(dict(args=["--mode", "bl", "--cases", str(600 if quick else 6000), "--seed", str(seed * 1000 + 3), "--bufsize", str(N)],
+                    tag="bl", timeout=1500))
+    res.append(dict(args=["--mode", "f", "--cases", str(_fcases(N, 900 if quick else 9000)), "--seed", str(seed * 1000 + 4),
+                          "--bufsize", str(N), "--trfallbacks", str(nfall), "--tritems", str(nitems)], tag="f", timeout=1500))
+    # results whose length does not fit in int must throw; the thorough tier also builds the two 2 GiB results at the
+    # boundary INT_MAX-1 / INT_MAX (about 15 s and 4.5 GB each under ASan)
+    res.append(dict(args=["--mode", "F", "--cases", "7" if quick else "9", "--big", "0" if quick else "1", "--seed", str(seed)],
+                    tag="F", timeout=1500))
     return res
 
 
@@ -81,5 +105,9 @@ def search_batches(seed):
         dict(args=["--mode", "b", "--maxlen", "4", "--first", "0", "--cases", str(_count(4) ** 2), "--seed", str(seed)], timeout=900),
         dict(args=["--mode", "br", "--cases", "200000", "--seed", str(seed * 7919 + 13)], timeout=900),
         dict(args=["--mode", "ur", "--cases", "200000", "--seed", str(seed * 7919 + 14)], timeout=900),
-        dict(args=["--mode", "f", "--cases", "6000", "--seed", str(seed * 7919 + 15)], timeout=900),
+        dict(args=["--mode", "f", "--cases", str(_fcases(_source_facts()[0], 4000)), "--seed", str(seed * 7919 + 15),
+                   "--bufsize", str(_source_facts()[0])], timeout=900),
+        dict(args=["--mode", "ul", "--cases", "3000", "--seed", str(seed * 7919 + 16)], timeout=900),
+        dict(args=["--mode", "bl", "--cases", "6000", "--seed", str(seed * 7919 + 17), "--bufsize", str(_source_facts()[0])], timeout=900),
+        dict(args=["--mode", "F", "--cases", "9", "--big", "1", "--seed", str(seed)], timeout=900),
     ]
